@@ -53,6 +53,35 @@ pub fn judge(_cfg: &Config, case: &Case, l: &mut Local) {
     match case {
         Case::Typed { announced, requested, text } => {
             let ops = msg(requested).unwrap();
+            // the error-collecting variant of the typed parse: never a message of another type, and on the
+            // diagonal the same message as the plain typed parse
+            if let Ok(we) = guard(|| (ops.parse_full_with_errors)(text)) {
+                match &we {
+                    Ok(m) if announced != requested => v(
+                        l,
+                        "parse_with_errors::<T>",
+                        requested,
+                        "accepted-other-type",
+                        format!("parse_with_errors as MT{requested} returned a message (type {}) for a text announcing MT{announced}", m.message_type()),
+                        case,
+                    ),
+                    Ok(m) => {
+                        if let Ok(Ok(p)) = guard(|| (ops.parse_full)(text))
+                            && let (Ok(a), Ok(b)) = (m.json(), p.json())
+                            && let Some(d) = first_diff(&a, &b)
+                        {
+                            v(l, "parse_with_errors::<T>", requested, "differs-from-typed", format!("MT{requested}: parse_with_errors and parse give different messages at {d}"), case);
+                        }
+                    }
+                    Err(_) => {
+                        if announced == requested
+                            && let Ok(Ok(_)) = guard(|| (ops.parse_full)(text))
+                        {
+                            v(l, "parse_with_errors::<T>", requested, "rejects-what-parse-accepts", format!("MT{requested}: parse_with_errors fails on a message parse::<T> accepts"), case);
+                        }
+                    }
+                }
+            }
             let r = guard(|| (ops.parse_full)(text));
             let stratum = if announced == requested { "typed:diagonal" } else { "typed:off-diagonal" };
             match r {
@@ -344,6 +373,27 @@ pub fn run(cfg: &Config) -> i32 {
             let (_, t) = &bases[(k + j * 31) % bases.len()];
             if let Some(x) = with_code(t, &code) {
                 cases.push(Case::Code { code: code.clone(), text: x });
+            }
+        }
+    }
+    // rule-violating messages (sweep points of the C04 enumeration, through their MT text in an envelope of
+    // the type): every entry point must dispatch them to the same type's rules as the typed API does
+    {
+        let mut env: std::collections::BTreeMap<String, (String, String)> = Default::default();
+        for (mt, text) in &bases {
+            if let Some(b4) = crate::corpus::block4_of(text)
+                && let Some(i) = text.find(b4.as_str())
+            {
+                env.entry(mt.clone()).or_insert((text[..i].to_string(), text[i + b4.len()..].to_string()));
+            }
+        }
+        for (mt, body) in crate::props::c04::sweep_bodies(cfg.tier.pick(25usize, 400usize)) {
+            let Some(ops) = msg(&mt) else { continue };
+            let Some((pre, post)) = env.get(&mt) else { continue };
+            if let Ok(Ok(b)) = guard(|| (ops.body_from_json)(&body))
+                && let Ok(t) = guard(|| b.to_mt())
+            {
+                cases.push(Case::Code { code: mt.clone(), text: format!("{pre}\n{}\n{post}", t.trim_end_matches(['\r', '\n'])) });
             }
         }
     }
